@@ -22,12 +22,18 @@ CHECKS = {
          "Exploration of histories over {PUBLISH(QoS2,id,DUP), PUBREL(id)} with re-deliveries and identifier reuse; reference model = set of unreleased identifiers; oracle = stream items equal the model's distinct messages and every re-delivery is still answered with PUBREC."),
  "C10": ("exploration", "3.C10", "seeded deterministic simulation: Receive Maximum histories + quiescent probe (free+1 publishes) against a wire-level counter model",
          "Exploration: R in {1..12, absent}, bursts, every failing completion kind, then at quiescence exactly `free` publishes must be accepted and one refused; plus a broker-view safety counter and a serial-order-impossibility test for QuotaExceeded."),
+ "C01": ("exploration", "3.C01", "deterministic simulation end to end + seeded option-space generation; wire bytes decoded by the independent strict reference codec and compared field by field with the caller's options; partial / pending writes from the simulated transport",
+         "Exploration: random subsets of every option of Connect/Auth/Publish/Subscribe/Subscription/Unsubscribe/Disconnect options with boundary values (0,1,127,128,16383,16384,65535-byte strings, multi-byte UTF-8, integer extremes, 0..n user properties, 1..n filters, payloads across the 1/2/3(/4 in thorough)-byte remaining-length boundaries), requests with a mandatory part missing, issued through the public API of a running client from several handles while the simulated AsyncWrite accepts 1..n bytes per call or blocks. The simulator's share is the end-to-end path and the write-fragmentation dimension; the option space is decided by seeded generation against the independent codec (said plainly in DESIGN.md)."),
+ "C02": ("exploration", "3.C02", "deterministic simulation end to end + seeded packet-space generation by the independent reference encoder (all server packet types, legal property subsets in shuffled order, short forms, boundary lengths), delivered through chunked reads; every public accessor compared",
+         "Exploration: the reference encoder generates CONNACK/AUTH/PUBLISH/PUBACK/PUBREC/PUBREL/PUBCOMP/SUBACK/UNSUBACK/PINGRESP/DISCONNECT with every legal reason code, random legal property subsets in random order, repeated user properties, the short forms the standard defines, and delivers each at the phase where its values become visible; oracle compares every accessor of ConnectRsp/ConnectError/AuthRsp/SubscribeRsp/UnsubscribeRsp/PublishData/Pub*Error/Disconnected/UserProperties with the generated value and requires that run()/connect() accept the packet. Reassembly makes the outcome a function of (packet, chunking), which is the simulator's share."),
  "C03": ("exploration", "3.C03", "deterministic simulation, differential oracle: chunked delivery vs one read per packet; systematic composition sweeps (all 2^(n-1) compositions of short streams, every cut position, 512/1024 alignments) + seeded random chunkings; both arithmetic profiles",
          "Exploration with bounded systematic sweeps inside the simulator: every composition of short inbound streams (connect and run phase), every single cut and every cut pair around the 512/1024-byte buffer steps of a long multi-packet stream, fixed chunk sizes, 3-byte (thorough: 4-byte) remaining lengths, readers that return Pending between chunks and readers that scribble the unfilled buffer tail; the observable trace must equal the packet-per-read reference, no stall with unread bytes, no early end-of-stream. Run with overflow checks on and off."),
  "C16": ("exploration", "3.C16", "deterministic simulation, differential oracle over polling disciplines: wake-only vs sweep (every task polled after every step) vs spurious polls at seeded positions; quiescence sweep probe",
          "Exploration: each seeded scenario is executed three times - wake-only, wake-only plus a sweep of all non-woken tasks after every step, wake-only plus spurious polls at random positions - and wire bytes, results and stream items must be identical; in the wake-only run a final sweep must change nothing and no quiescent point may leave readable input unconsumed."),
  "C04": ("fault_enumeration", "3.C04", "deterministic simulation with fault injection: hostile scripted broker (byte soup, 12 mutation kinds of valid packets, every packet type at every phase) + transport faults; systematic truncation / fault-offset sweeps; both arithmetic profiles",
          "Fault enumeration: systematically, every truncation of sampled valid packets of every server packet type (both phases), remaining length +-1, every packet type as first response and while running, EOF / read error at every inbound byte offset and write error / zero-length write at every outbound byte offset of a base scenario; plus seeded random placement of hostile bytes and faults inside conformant workloads with in-flight state. Oracle: no panic in any poll (documented assertion exempted), no stall with unread input, no busy loop, connect()/run() returns once the transport has ended. Run with overflow checks on and off."),
+ "C12": ("exploration", "3.C12", "deterministic simulation with a twin run: the same recorded scenario is executed with and without the announced Maximum Packet Size; packet lengths L are read off the twin's wire, requests are padded to L in {M-1, M, M+1}",
+         "Exploration: M in {absent, 1, 2, 3, values around the 127/128 and 16383/16384 length boundaries, 65-70k, 2^32-1, random 12..90} x requests of every kind padded through payload / topic / filter / user property / reason string so that the encoded length lands on M-1, M, M+1; oracle: L > M => MaximumPacketSizeExceeded and not one byte written, L <= M => written in full; afterwards the quota probe finds exactly the free Receive Maximum slots (nothing left behind) and no operation completes twice."),
  "C13": ("fault_enumeration", "3.C13", "seeded deterministic simulation with fault injection: every terminating cause (user/server DISCONNECT, EOF, read/write error, handles dropped, undecodable input) injected at random session states; connect()/authorize() outcomes",
          "Fault enumeration by seeded search: one terminating cause per run (kind enumerated by the generator, position random over conformant histories with operations outstanding, streams open, mid-QoS 2), oracle demands the exact documented variant and that run() is still pending when no cause occurred; faults fired are counted per kind in the evidence."),
  "C14": ("fault_enumeration", "3.C14", "seeded deterministic simulation: crash-point injection (DropContext after a random prefix of conformant/inbound histories), wake-only executor, hang detection at quiescence",
